@@ -167,7 +167,10 @@ pub fn check_line(st: &mut Stats, line: &Value, seed: u64, conc_filter: Option<&
 /// A random fact set beyond TLC's sizes, built under several permutations.
 pub fn big_case(seed: u64, jax: bool) -> Vec<String> {
     let mut rng = Rng::new(seed);
-    let n = rng.range(40, 90) as usize;
+    // every third fact set is DEEP: a backbone chain through all terms (is_a paths of 150-260 links, far beyond the
+    // depth of any shipped ontology), so that a term may be supplied long before the ancestors it has to be connected to
+    let deep = seed % 3 == 2;
+    let n = if deep { rng.range(150, 260) as usize } else { rng.range(40, 90) as usize };
     let mut ids: Vec<u32> = vec![1, 118];
     while ids.len() < n {
         let x = if rng.chance(1, 2) { rng.range(2, 400) as u32 } else { rng.range(119, MAX_ID as u64) as u32 };
@@ -186,9 +189,14 @@ pub fn big_case(seed: u64, jax: bool) -> Vec<String> {
         let k = 1 + rng.below(3) as usize;
         let mut ps = std::collections::BTreeSet::new();
         for _ in 0..k {
-            ps.insert(ids[rng.below(i as u64) as usize]);
+            // deep sets: extra parents only from the last few terms (a far parent would be connected first and
+            // shorten the recursion to the uncached part of the backbone)
+            ps.insert(ids[if deep { i - 1 - rng.below(4.min(i as u64)) as usize } else { rng.below(i as u64) as usize }]);
         }
-        if i > 30 && rng.chance(1, 6) {
+        if deep {
+            ps.insert(ids[i - 1]);
+        }
+        if !deep && i > 30 && rng.chance(1, 6) {
             for j in 0..14 {
                 ps.insert(ids[i - 1 - j]);
             }
@@ -215,7 +223,7 @@ pub fn big_case(seed: u64, jax: bool) -> Vec<String> {
     }
     let mut d = vec![];
     for i in 0..4 {
-        let p = if i == 0 { plain.clone() } else { permuted(&plain, &mut rng) };
+        let p = if i == 0 { plain.clone() } else if i == 1 { reversed(&plain) } else { permuted(&plain, &mut rng) };
         all.push((format!("builder/perm{i}"), via_builder(&p, EdgeOrder::AsGiven, false, false)));
         all.push((format!("builder-defaults/perm{i}"), via_builder(&p, EdgeOrder::AsGiven, false, true)));
         let bytes = enc::encode(&enc::abstract_of_ordered(&p, false), 3);
@@ -229,7 +237,7 @@ pub fn big_case(seed: u64, jax: bool) -> Vec<String> {
     // with obsolete / replacement flags: binary and text files only
     let mut flagged = vec![];
     for i in 0..3 {
-        let p = if i == 0 { scn.clone() } else { permuted(&scn, &mut rng) };
+        let p = if i == 0 { scn.clone() } else if i == 1 { reversed(&scn) } else { permuted(&scn, &mut rng) };
         let bytes = enc::encode(&enc::abstract_of_ordered(&p, false), 3);
         flagged.push((format!("flags-binary-v3/perm{i}"), from_bytes(&bytes)));
         flagged.push((format!("flags-binary-v3-permuted/perm{i}"), via_binary(&p, 3, Some(rng.next())).1));
